@@ -1,7 +1,7 @@
 #!/bin/sh
 # tools/seed_matrix.sh [ids...] : for every seeded change apply it to /repo, run the check of its own property, undo; summary -> build/seed_matrix.tsv
 cd /verif
-ids="$@"; [ -z "$ids" ] && ids=$(ls seeded | grep -v RESULTS)
+ids="$@"; [ -z "$ids" ] && ids=$(cd seeded && ls -d */ | tr -d /)
 mkdir -p build
 for id in $ids; do
   p=${id%%-*}
